@@ -286,7 +286,7 @@ def canon(x):
             return ("nan",)
         if math.isinf(x):
             return ("inf", x > 0)
-        return ("int", int(x)) if x == int(x) and abs(x) < 2**53 else ("flt", x)
+        return ("int", int(x)) if x == int(x) else ("flt", x)
     if isinstance(x, decimal.Decimal):
         if not x.is_finite():
             return ("dec", str(x))
@@ -667,9 +667,10 @@ def engine_ties(chk):
     lines += ["params\tlex\t" + enc_str(t) for t in texts]
     fmts = []
     for _ in range(n):
-        tmpl = "".join(rnd.choice(["%s", "%%", "%(a)s", "%(b c)s", "%", "a", "'", " ", "%d", "%(", ")", "s", "(", "%5s", "x"]) for _ in range(rnd.randint(0, 7)))
+        tmpl = "".join(rnd.choice(["%s", "%s", "%%", "%%", "%(a)s", "%(b c)s", "%", "a", "a", "'", " ", " ", "%d", "%(", ")", "s", "(", "%5s", "x", "x"]) for _ in range(rnd.randint(0, 7)))
         if rnd.random() < 0.6:
-            args = tuple(rnd.choice(["v", "%s", "%%", "'q'", "%(a)s", ""]) for _ in range(rnd.randint(0, 3)))
+            nargs = tmpl.replace("%%", "").count("%s") if rnd.random() < 0.7 else rnd.randint(0, 3)
+            args = tuple(rnd.choice(["v", "%s", "%%", "'q'", "%(a)s", ""]) for _ in range(nargs))
             fmts.append((tmpl, args))
         else:
             fmts.append((tmpl, {k: rnd.choice(["v", "%s", "%(a)s"]) for k in rnd.sample(["a", "b c", "z"], rnd.randint(1, 2))}))
